@@ -1,21 +1,21 @@
 #!/bin/bash
-# usage: tools/mutant_matrix.sh "<ids to run>" <mutdir>...   — runs quick checks against each mutant in a scratch copy
-# of /verif and a scratch worktree of /repo (so /repo and /verif stay usable meanwhile); results -> /verif/.work/matrix/
+# usage: LANE=<n> tools/mutant_matrix.sh "<ids to run>" <mutdir>...   — runs quick checks against each seeded change in a
+# scratch copy of /verif and a scratch worktree of /repo (so /repo and /verif stay usable meanwhile; several lanes can
+# run side by side); results -> /verif/.work/matrix/<tag>.txt.  Scratch copies are removed at the end.
 ids="$1"; shift
-V=/tmp/vcopy; W=/tmp/wt_mut
-rm -rf $V; mkdir -p $V; rsync -a --exclude .git --exclude .work --exclude replays /verif/ $V/
+L=${LANE:-0}; V=/tmp/vcopy_$L; W=/tmp/wt_mut_$L
+rm -rf $V; mkdir -p $V; rsync -a --exclude .git --exclude .work --exclude replays --exclude seeded /verif/ $V/
 git -C /repo worktree remove --force $W 2>/dev/null; git -C /repo worktree add -q --detach $W HEAD
 mkdir -p /verif/.work/matrix
 for mut in "$@"; do
-  tag=$(echo "$mut" | sed 's#/tmp/mut_##; s#/#_#g')
+  tag=$(basename "$mut")
   git -C $W apply "$mut/patch.diff" || { echo "APPLY-FAILED" > /verif/.work/matrix/$tag.txt; continue; }
   : > /verif/.work/matrix/$tag.txt
   for id in $ids; do
-    out=$(cd $V && HMF_REPO=$W ./check $id --tier quick 2>&1 | grep -E "^VIOLATION|^KNOWN|^C[0-9]+:|INFRA" | cut -c1-200 | tail -3)
+    out=$(cd $V && HMF_REPO=$W timeout 1500 ./check $id --tier quick 2>&1 | grep -E "^VIOLATION|^KNOWN|^C[0-9]+:|INFRA" | cut -c1-200 | tail -3 | tr '\n' ' ')
     echo "[$id] $out" >> /verif/.work/matrix/$tag.txt
   done
   git -C $W checkout -- .
 done
-(cd $V && HMF_REPO=$W /venv/bin/python -B tools/gen_all.py >/dev/null)
 git -C /repo worktree remove --force $W; rm -rf $V
-echo MATRIX-DONE
+echo MATRIX-DONE lane $L
